@@ -94,8 +94,17 @@ func TestCorpusParsesMSL(t *testing.T) {
 				return
 			}
 			prog, perr := Parse(MSL, txt)
+			if perr == nil {
+				// functions with unmodelled constructs are isolated: Parse
+				// succeeds, running the kernel reports the reason
+				for _, e := range prog.EntryPoints() {
+					if e.Stage == "kernel" && e.Unsupported != "" {
+						perr = &UnsupportedError{Dialect: MSL, What: e.Unsupported}
+					}
+				}
+			}
 			results = append(results, result{file, entry, mc.name, perr})
-			if prog == nil {
+			if prog == nil || perr != nil {
 				return
 			}
 			// smoke run over zero-filled buffers: must never panic
@@ -197,4 +206,80 @@ var triagedNagaMSLDefects = []string{
 	// ReadZeroSkipWrite load "c ? x : DefaultConstructible()" emitted without parentheses as an operand:
 	// "a * uint(i) < 4 ? v[i] : DefaultConstructible()"
 	"with a DefaultConstructible operand is ambiguous",
+	// golden 7048-multiple-dynamic-2.msl: WGSL "(val_0 * val_1).xxyy" is written
+	// "val_0_ * val_1_.xxyy": the swizzle applies to the right operand only (float2 * float4)
+	"operator * cannot be applied to float2 and float4",
+	// golden mesh-shader.msl: the task function "ts_main" uses the task payload variable
+	// "taskPayload", which is declared nowhere in the text
+	`undeclared identifier "taskPayload"`,
+}
+
+// TestGoldenMSLParses parses every MSL golden file of naga's snapshot suite
+// (all stages, the option sets of the snapshot configuration).  It is a
+// parser-coverage test: InvalidErrors must be in the triaged list.
+func TestGoldenMSLParses(t *testing.T) {
+	paths, _ := filepath.Glob("/repo/snapshot/testdata/golden/msl/*.msl")
+	if len(paths) == 0 {
+		t.Skip("goldens not found")
+	}
+	sort.Strings(paths)
+	ok, unsupTexts, invalid := 0, 0, 0
+	unsupWhat := map[string]int{}
+	invalidByMsg := map[string][]string{}
+	entries, entriesUnsup := 0, 0
+	for _, path := range paths {
+		b, err := os.ReadFile(path)
+		if err != nil {
+			t.Fatal(err)
+		}
+		prog, perr := Parse(MSL, string(b))
+		var ie *InvalidError
+		var ue *UnsupportedError
+		switch {
+		case perr == nil:
+			ok++
+			for _, e := range prog.EntryPoints() {
+				entries++
+				if e.Unsupported != "" {
+					entriesUnsup++
+				}
+			}
+			for _, u := range prog.UnsupportedFunctions() {
+				unsupWhat[u[strings.Index(u, ": ")+2:]]++
+			}
+		case errors.As(perr, &ue):
+			unsupTexts++
+			unsupWhat["(whole text) "+ue.What]++
+		case errors.As(perr, &ie):
+			invalid++
+			key := ie.Code + ": " + ie.Msg
+			invalidByMsg[key] = append(invalidByMsg[key], filepath.Base(path))
+		default:
+			t.Errorf("%s: unexpected error type %v", path, perr)
+		}
+	}
+	t.Logf("goldens: %d texts: parsed %d, unsupported as a whole %d, invalid %d; %d entry points, %d of them not runnable", len(paths), ok, unsupTexts, invalid, entries, entriesUnsup)
+	for _, k := range sortedKeys(unsupWhat) {
+		t.Logf("  unsupported x%d: %s", unsupWhat[k], k)
+	}
+	untriaged := 0
+	for _, k := range sortedKeys(invalidByMsg) {
+		where := invalidByMsg[k]
+		known := false
+		for _, pat := range triagedNagaMSLDefects {
+			if strings.Contains(k, pat) {
+				known = true
+			}
+		}
+		tag := "UNTRIAGED"
+		if known {
+			tag = "naga defect"
+		} else {
+			untriaged += len(where)
+		}
+		t.Logf("  invalid [%s] x%d: %s   e.g. %s", tag, len(where), k, where[0])
+	}
+	if untriaged > 0 {
+		t.Errorf("%d golden texts fail to parse with an untriaged InvalidError", untriaged)
+	}
 }
